@@ -59,6 +59,18 @@ def isar_friendly_schema(rng):
         else:
             sch.add(S.Enum('XE%d' % k, [('XE%d_A' % k, 0xFFFFFFF6), ('XE%d_B' % k, 1), ('XE%d_C' % k, 0xFFFFFFFF)]))
             sch.add(S.Struct('XS%d' % k, [S.Member('e', 'XE%d' % k), S.Member('f', 'XE%d' % k, S.FIXED, 2)]))
+    # isar's optional arrays: a u32 has_<name> directly in front of an array of any dimension form
+    for d in sch.defs:
+        if d.kind != 'struct':
+            continue
+        i = 0
+        while i < len(d.members):
+            m = d.members[i]
+            if m.kind in (S.FIXED, S.DYNAMIC, S.LIMITED, S.EXT) and rng.random() < 0.2 and \
+                    not any(x.name == 'has_' + m.name for x in d.members):
+                d.members.insert(i, S.Member('has_' + m.name, 'u32'))
+                i += 1
+            i += 1
     return sch
 
 
@@ -210,7 +222,9 @@ def finish(ctx, merged, specs):
                                   'isVariableSize+variableSizeFieldType', '@sizer', 'THIS_IS_VARIABLE_SIZE_ARRAY',
                                   'message', 'negative-enumerator', 'patch-type', 'patch-insert', 'patch-remove',
                                   'patch-dynamic', 'patch-limited', 'patch-greedy', 'patch-static',
-                                  'patch-rename-member', 'patch-rename-node', 'patch-struct')]
+                                  'patch-rename-member', 'patch-rename-node', 'patch-struct',
+                                  'patch-greedy-then-remove', 'patch-remove-then-greedy', 'optional-array:ext',
+                                  'optional-array:fixed', 'optional-array:dynamic', 'optional-array:limited')]
     missing = [f for f in need if f not in merged['features']]
     for k in ('encodings_compared', 'absent_message_rules_ignored', 'inapplicable_rules_rejected'):
         if not merged['counters'].get(k):
